@@ -320,6 +320,9 @@ func runC06(c *Ctx) {
 		}
 		ruleAlloc(c, p)
 		ruleRowsContract(c, p)
+		c.R.Rule("C06.errors", "E6 (as C07.errors): every read error on the decode side reaches only failure exits - a swallowed error turns hostile input into a silently wrong (internally inconsistent) result")
+		nE := runErrDisc(c, p, p.Funcs(), errDiscOpts{Rule: "C06.errors", Class: readerClass(p), Exempt: isDoReceiverPacket})
+		c.R.Floor("C06.errors", cfg.Name, nE, 190)
 	}
 	p := c.Prog(core.CfgDefault)
 	if p == nil {
